@@ -1,4 +1,5 @@
 //! wire-level monitors: C01 C02 C03 C12 (C20 lives in the async build).
+mod c01;
 mod c02;
 mod c03;
 mod common;
@@ -9,6 +10,7 @@ fn main() {
     let args = Args::parse();
     let mut rep = Report::new(&args);
     match args.prop.as_str() {
+        "C01" => c01::run(&args, &mut rep),
         "C02" => c02::run(&args, &mut rep),
         "C03" => c03::run(&args, &mut rep),
         other => {
